@@ -61,6 +61,10 @@ var blocks = []block{
 	{"timevals", func(p *pg, g string) {
 		p.w("%s_t = time.time(year = 2021, month = 3, day = 4, location = \"UTC\")\n%s_d = time.parse_duration(\"90m\")\n%s_pair = (%s_t, %s_d, %s_t + %s_d)", g, g, g, g, g, g, g)
 		p.w("%s_fields = (%s_t.year, %s_t.hour, %s_d.hours, %s_d.minutes)", g, g, g, g, g)
+		// lookups that FAIL, repeated within the program (and again in every later execution in the process)
+		z := fmt.Sprintf("No/Such_Zone_%d", p.r.Intn(50))
+		p.w("%s_zones = [time.is_valid_timezone(z) for z in [\"UTC\", %q, \"America/New_York\", \"Mars/Olympus_Mons\", %q, \"Mars/Olympus_Mons\", \"\", \"utc\"]]", g, z, z)
+		p.w("%s_again = (time.is_valid_timezone(%q), int(\"12\", 0) if False else None, {}.get(%q), [].index(1) if False else 0, \"abc\".find(%q), json.decode(\"null\"))", g, z, z, z)
 	}},
 	{"dictlong", func(p *pg, g string) {
 		ws := p.words(6 + p.r.Intn(14))
@@ -191,6 +195,15 @@ var errorEndings = []func(p *pg, g string){
 	},
 	func(p *pg, g string) { p.w("%s_x = {[1]: 2}", g) },
 	func(p *pg, g string) { p.w("%s_x = \"\".nosuchmethod_joinx()", g) },
+	func(p *pg, g string) { // a lookup that failed before in this program / process fails the same way again
+		p.w("%s_ok = [time.is_valid_timezone(\"Atlantis/Lost_City\") for _ in range(3)]\ndef %s_f(): return time.parse_time(\"2020-01-02T03:04:05Z\", location = \"Atlantis/Lost_City\")\n%s_f()", g, g, g)
+	},
+	func(p *pg, g string) {
+		p.w("%s_ok = time.is_valid_timezone(\"Nowhere/Land_Of\")\ndef %s_f(): return time.time(year = 2020, location = \"Nowhere/Land_Of\")\n%s_f()", g, g, g)
+	},
+	func(p *pg, g string) {
+		p.w("%s_ok = time.is_valid_timezone(\"Void/Zone_X\")\ndef %s_f(): return time.now().in_location(\"Void/Zone_X\")\n%s_f()", g, g, g)
+	},
 	func(p *pg, g string) { p.w("%s_x = json.decode('{\"a\": [1, 2,, 3]}')", g) },
 	func(p *pg, g string) {
 		p.w("def %s_r(n): return %s_r2(n)\ndef %s_r2(n): return 1 // (n - n)\n%s_r(3)", g, g, g, g)
